@@ -230,6 +230,10 @@ type StreamServerConfig struct {
 // NewStreamServer returns a new Shadowsocks 2022 stream server.
 func (c *StreamServerConfig) NewStreamServer() *StreamServer {
 	return &StreamServer{
+		// Timestamps have one-second granularity: a request accepted with a timestamp 30 seconds
+		// in the future still passes validation until just under 61 seconds later, so its salt
+		// has to be remembered for one second more than the nominal replay window.
+		saltPool:                   SaltPool{retention: ReplayWindowDuration + time.Second},
 		readOnceOrFull:             readOnceOrFullFunc(c.AllowSegmentedFixedLengthHeader),
 		userCipherConfig:           c.UserCipherConfig,
 		identityCipherConfig:       c.IdentityCipherConfig,
